@@ -45,6 +45,7 @@ type HarnessSpec struct {
 	What    string
 	TimeoutMs int
 	Overrides map[string]string
+	ThorSchedBudget int // scheduling deviations explored in the thorough tier (0 = as in Opts)
 	OnlyLabels []string // when set, assertion labels outside this list belong to another property and are not reported here
 }
 
@@ -152,6 +153,9 @@ func runCmd(args []string) {
 		}
 		cfg := &gosym.HarnessCfg{Pkg: P.Module + "/" + h.Pkg, Func: h.Func, Workers: *workers, Params: params,
 			Opts: h.Opts, Overrides: h.Overrides, MaxPaths: maxPaths, Deadline: time.Duration(secs) * time.Second, TimeoutMs: h.TimeoutMs}
+		if *tier == "thorough" && h.ThorSchedBudget > 0 {
+			cfg.Opts.SchedBudget = h.ThorSchedBudget
+		}
 		if *tier == "thorough" && cfg.TimeoutMs == 0 {
 			cfg.TimeoutMs = 120000
 		}
